@@ -67,6 +67,7 @@ def _run_job(job):
     ex = make_executor(prog, extra, unwind=opts.get('unwind', 64))
     ex.unwind_limits.update(opts.get('unwind_limits', {}))
     ex.job = job
+    ex.linear_normalize = bool(opts.get('linear_normalize'))
     ex.pin_consts = bool(opts.get('pin_consts'))
     ex.fp_mode = bool(opts.get('fp_mode'))
     st = State()
@@ -95,6 +96,8 @@ def _run_job(job):
     post = stubs.post_obligations(ex, opts)
     for obl in ex.obls + post:
         if obl.kind == 'panic' and any(a in obl.label for a in allow):
+            continue
+        if obl.kind == 'reach' and opts.get('no_reach'):
             continue
         r = d.discharge(obl)
         rec = None
